@@ -51,4 +51,15 @@ def plan(tier):
             bounds='co_await chain depth <= 3; one coroutine under test per scenario',
             outside='completion on a different OS thread and thread-pool start (C11/C03); join() on a coroutine that suspends (blocks the only thread); '
                     'destroying a coroutine that is suspended in the middle of its body'))
+    K = 10
+    vm = [[b, t, a, k] for b in range(4) for t in range(2) for a in range(2) for k in range(K)]
+    units.append(dict(
+        engine='e1', name='start_mt', tu='C04conc.cpp', entry='h_start_mt', unwind=6, vectors=vm,
+        concrete=[([b, t, a, k], [5, 6, 7]) for b in range(4) for t, a, k in ((0, 0, 0), (1, 1, 2), (0, 1, 4), (1, 0, 9))],
+        space='coro.start(promise) against another thread that uses the same promise, interleaved at atomic-instruction granularity: [the other thread\'s operation (set value, set exception, drop, '
+              'claim into a local promise resolved later), body returns / throws, an unstarted coroutine is destroyed / started with start(), k = position of the atomic instruction of start(promise) in '
+              'front of which the other thread\'s complete operation lands (1..%d; beyond the last one: after start() returned)]; full product' % K,
+        data='argument value, the other thread\'s value (16 bit) and exception tag (8 bit): symbolic',
+        bounds='two threads, one preemption: the other operation runs as a whole inside a window of start(promise)',
+        outside='interleavings that split both operations (the claim itself is one exchange; future/promise two-sided interleavings are the E2 scenarios of C01/C02); thread-pool start (C11)'))
     return units
